@@ -1,6 +1,7 @@
 """C01 - simplification preserves type and meaning, mentions no new symbol."""
 import itertools
 import warnings
+from fractions import Fraction
 
 warnings.filterwarnings("ignore", message=".*Division by 0.*")
 
@@ -216,6 +217,32 @@ def shard_bv(shard, nshards, wmax):
     return run
 
 
+ENUM_DOM = {"Bool": [False, True], "Int": [-2, -1, 0, 1, 3], "Real": [Fraction(-1), Fraction(0), Fraction(1, 2), Fraction(2)]}
+
+
+def enum_interps(t):
+    """Every interpretation of the (few) free symbols of an enumerated term over small value sets."""
+    import itertools
+    syms = sorted(reffv(t), key=repr)
+    doms = [ENUM_DOM[ty] if isinstance(ty, str) else list(range(1 << ty[1])) for (_, ty) in syms]
+    out = [{n: v for (n, _), v in zip(syms, combo)} for combo in itertools.islice(itertools.product(*doms), 0, 400)]
+    return out
+
+
+def shard_enum(shard, nshards, stride, offset):
+    """Bounded-exhaustive: every one-operator term and every two-operator combination (vf/enumterms.py)."""
+    from vf import enumterms
+    run = Run(PID)
+    idx = 0
+    for t in itertools.chain((x for v in enumterms.depth1().values() for x in v), enumterms.depth2()):
+        idx += 1
+        if idx % nshards != shard or (idx // nshards) % stride != offset % stride:
+            continue
+        judge(run, t, enum_interps(t), {}, "enumerated")
+        run.cls("enumerated-two-operator-term")
+    return run
+
+
 def main():
     chk = Check(PID, "exploration", RULE, assumptions=[
         "reference evaluator vf/refsem.py transcribes SMT-LIB 2.6 theory semantics",
@@ -233,8 +260,16 @@ def main():
     nb = 8
     for sh in range(nb):
         jobs.append((shard_bv, dict(shard=sh, nshards=nb, wmax=wmax)))
+    stride = 1 if thorough else 6
+    for sh in range(16):
+        jobs.append((shard_enum, dict(shard=sh, nshards=16, stride=stride, offset=chk.seed)))
     chk.add(run_shards(jobs))
     chk.exhaustive.append("every BV operator x constant/symbol operands, widths 1..%d" % wmax)
+    if stride == 1:
+        chk.exhaustive.append("every term with one or two operators over Bool / Int / Real / BV1 / BV2 leaves (vf/enumterms.py), "
+                              "every interpretation over small value sets")
+    else:
+        chk.notes["enumerated_terms"] = "1/%d of the two-operator terms (slice chosen by VERIF_SEED); the thorough tier takes all" % stride
     chk.floor("rewrite-fired", 500)
     for o in ("FORALL", "ARRAY_STORE", "STR_SUBSTR", "DIV", "BV_SDIV", "FUNCTION", "ITE"):
         chk.floor("op:" + o, 20)
